@@ -14,7 +14,7 @@ Output: coq/Gen/ReaderPrims.v.  Exit status 0 = anchors parsed; 2 = an anchor no
 import re, sys, os, glob
 
 REPO = os.environ.get("VERIF_REPO", "/repo")
-OUT = sys.argv[1] if len(sys.argv) > 1 else "/verif/coq/Gen/ReaderPrims.v"
+OUT = sys.argv[1] if len(sys.argv) > 1 else os.path.join(os.path.dirname(os.path.abspath(__file__)), "..", "coq", "Gen", "ReaderPrims.v")
 
 PRIMS = ["u8", "i8", "u16be", "i16be", "u24be", "u32be", "i32be", "u64be", "i64be"]
 COQ = {"u8": "PU8", "i8": "PI8", "u16be": "PU16", "i16be": "PI16", "u24be": "PU24",
